@@ -80,7 +80,7 @@ class ExpressionTokenTranslator(AbstractTranslator):
                 # попытка заставить сравнение работать так, как надо
                 left = f'self._compare("{OperatorSubTokenTranslator.translate(operator, None, None)}", {left}, {right})'
             elif operator.__class__ is AmpersandToken:
-                left = f'(str({left})+str({right}))'
+                left = f'(self._excel_value_to_string({left})+self._excel_value_to_string({right}))'
             else:
                 left = f'({left}{OperatorSubTokenTranslator.translate(operator, None, None)}{right})'
                 if left_is_percent:
